@@ -237,7 +237,7 @@ func checkC20(t *testing.T, c C20Case) Verdict {
 }
 
 // retry waits in microseconds: sub-millisecond, the property's 1..50 ms, and one hour
-var c20Waits = []int{100, 999, 1000, 2000, 5000, 10000, 25000, 50000, 3600000000}
+var c20Waits = []int{100, 999, 1000, 1900, 2000, 5000, 10000, 25000, 33333, 50000, 3600000000}
 
 func c20SingleCase(kind, style, n, waitUs, mask, cancelAfter, frac, execMs int) C20Case {
 	s := VisitScript{Action: "x", Fb: Outcome{Pay: 1}}
